@@ -442,7 +442,7 @@ func plainSort(srt string) bool {
 
 // chanGhostHeap: ghost state of channels, which no modifies clause names.
 func chanGhostHeap(h string) bool {
-	return h == "ChanSent" || h == "ChanRecvd" || h == "ChanClosed" || h == "ChanCap"
+	return h == "ChanSent" || h == "ChanRecvd" || h == "ChanClosed" || h == "ChanCap" || h == "Published"
 }
 
 func isContentHeap(h string) bool {
@@ -1008,7 +1008,11 @@ func (fr *FuncRun) atCallAsserts(f *Frame, st *State, c *ssa.CallCommon, name st
 		}
 		ctx := &EvalCtx{fr: fr, f: top, st: st, old: top.entry, pkg: fr.eng.pkgOf(top.fn), binds: binds}
 		t := fr.evalClause(ctx, ac.Clause)
+		nob := len(fr.obls)
 		fr.assertOb(st, "callsite", fmt.Sprintf("%s:%d", name, k), t, pos, "call-site assertion at "+name+": "+ac.Clause.Text)
+		if ac.Ord == 0 && len(fr.obls) > nob {
+			fr.obls[len(fr.obls)-1].Universal = true
+		}
 		fr.callsiteSeen[fmt.Sprintf("%s:%d", name, k)] = true
 	}
 }
@@ -1452,7 +1456,7 @@ func (e *Engine) VerifyFunction(fn *ssa.Function) *FuncResult {
 	}
 	// frame (static): heaps written must be covered by modifies
 	if fc != nil && fc.HasMod {
-		allowed := map[string]bool{"Held": true, "ChanSent": true, "ChanRecvd": true, "ChanClosed": true, "ChanCap": true}
+		allowed := map[string]bool{"Held": true, "ChanSent": true, "ChanRecvd": true, "ChanClosed": true, "ChanCap": true, "Published": true}
 		objLevel := map[string][]string{}
 		wholeLevel := map[string]bool{}
 		for _, m := range fc.Modifies {
